@@ -26,7 +26,8 @@ PROPS = {
                 enum=[("enum_frame.py", ["frame.exits", "frame.decode"]), "bounded_garbage.py"],
                 witnesses=["c06_end_name_mismatch_exits", "c06_dangling_construct_name_exits", "c06_kind_selector_too_short",
                            "c06_use_only_dtio_generic_spec", "c06_hollerith_length_with_blank", "c06_component_decl_assertion",
-                           "c06_deallocate_assertion", "c06_array_constructor_empty_item"]),
+                           "c06_deallocate_assertion", "c06_array_constructor_empty_item", "c06_named_end_of_unnamed_unit", "c06_edit_descriptor_without_width",
+                           "c06_cray_pointer_without_pointee", "c06_identifier_collides_with_placeholder"]),
     "C09": dict(level="other",
                 claim="on every normal and exceptional exit of the only two functions that open scopes (BlockBase.match, "
                       "Main_Program0.match) the scope stack is as at entry and no symbol table of the failed parse remains; symbol-table "
@@ -44,7 +45,8 @@ PROPS = {
                 trusted=TRUSTED,
                 explanation="[P] U8c/d/e, F2; [E] F12 table; rejection of unbalanced parentheses is emergent and not decided",
                 witnesses=["c08_interface_end_name_mismatch", "c08_subroutine_end_name_mismatch", "c08_labelled_do_end_name_mismatch",
-                           "c08_stray_end_do_inside_labelled_do", "c08_labelled_do_without_terminator"]),
+                           "c08_stray_end_do_inside_labelled_do", "c08_labelled_do_without_terminator", "c08_generic_spec_with_surplus_parenthesis",
+                           "c08_procedure_declaration_drops_text"]),
     "C15": dict(level="other", enum=["enum_sentinels.py", "bounded_layout.py --only C15"],
                 claim="replace_omp_sentinels proved to overwrite exactly the two sentinel characters with blanks (length and every other column "
                       "unchanged); get_single_line proved to apply it to the normalised line before the line is stored or seen by anyone "
